@@ -34,6 +34,7 @@ type Case struct {
 	Publish *PublishCfg `json:"publish,omitempty"`
 	History *HistoryCfg `json:"history,omitempty"`
 	Stream  *StreamCfg  `json:"stream,omitempty"`
+	Command *CommandCfg `json:"command,omitempty"`
 }
 
 type Violation struct {
